@@ -568,9 +568,10 @@ impl<W: Write> RdbWriter<W> {
     fn write_key_value(&mut self, key: &[u8], value: &Value, ttl: Option<Duration>) -> io::Result<()> {
         // Write expiry if present
         if let Some(ttl) = ttl {
-            // the deadline in whole unix milliseconds, rounded up: never earlier than the key's deadline
+            // the deadline in whole unix milliseconds, rounded to the nearest: a deadline that was loaded from a
+            // dump is written back unchanged (the two clock readings of each conversion differ by microseconds)
             let deadline = SystemTime::now().duration_since(UNIX_EPOCH).unwrap() + ttl;
-            let expiry_ms = deadline.as_millis() as u64 + (deadline.subsec_nanos() % 1_000_000 != 0) as u64;
+            let expiry_ms = ((deadline.as_nanos() + 500_000) / 1_000_000) as u64;
             
             self.write_byte(RdbOpcode::ExpireTimeMs as u8)?;
             self.write_u64_le(expiry_ms)?;
